@@ -44,6 +44,11 @@ pub fn add_re<A>(
         }
 
         Regex::String(str) => {
+            if str.is_empty() {
+                // `""` matches the empty string
+                nfa.add_empty_transition(current, cont);
+            }
+
             let mut iter = str.chars().peekable();
             let mut current = current;
             while let Some(char) = iter.next() {
